@@ -64,15 +64,14 @@ LeadCtx(marks) ==
 (* Accepts(out, old, new, radius, header): the rendered bytes `out` are a  *)
 (* well-formed unified diff that turns `old` into exactly `new`.           *)
 (***************************************************************************)
-Accepts(out, old, new, radius, header) ==
-  IF old = new THEN out = <<>>
-  ELSE
-  LET L0 == SplitLines(out)
-      hasHdr == header
-      L == IF hasHdr /\ Len(L0) >= 2 /\ L0[1] = HdrOld /\ L0[2] = HdrNew THEN SubSeq(L0, 3, Len(L0)) ELSE L0
+(* (TLC evaluates operator arguments and LET definitions lazily and, for state-level       *)
+(* expressions, again at every use; the bounded quantifiers below bind the line lists to    *)
+(* evaluated values once.)                                                                  *)
+AcceptsLines(L0, O, new, radius, header) ==
+  LET hasHdr == header
       hdrOk == hasHdr => (Len(L0) >= 2 /\ L0[1] = HdrOld /\ L0[2] = HdrNew)
-      O == SplitLines(old)
-      RECURSIVE Body(_, _, _, _, _, _, _, _)
+  IN hdrOk /\ \E L \in {IF hasHdr /\ Len(L0) >= 2 THEN SubSeq(L0, 3, Len(L0)) ELSE L0} :
+  LET RECURSIVE Body(_, _, _, _, _, _, _, _)
       RECURSIVE Hunks(_, _, _, _, _)
       \* i: line index in L; opos: old lines consumed; res: new text so far;
       \* nlines: number of new lines in res; nh: hunks seen
@@ -114,7 +113,12 @@ Accepts(out, old, new, radius, header) ==
                      THEN /\ cnt[2] > 0
                           /\ Body(jn, op, r \o tok, nl + 1, <<cnt[1], cnt[2] - 1>>, Append(marks, PLUS), TRUE, nh)
                 ELSE FALSE
-  IN hdrOk /\ Hunks(1, 0, <<>>, 0, 0)
+  IN Hunks(1, 0, <<>>, 0, 0)
+
+Accepts(out, old, new, radius, header) ==
+  IF old = new THEN out = <<>>
+  ELSE \E L0 \in {SplitLines(out)}, O \in {SplitLines(old)}, nw \in {new} :
+          AcceptsLines(L0, O, nw, radius, header)
 
 UdiffViol(r) ==
   IF r.panic THEN {"panic"}
